@@ -486,6 +486,15 @@ func hostMutCheck(w *core.W, id string, c *HostMutCase) {
 				}
 				return n, nil
 			},
+			// the decimal package's idiom: the argument is used as the receiver of the result
+			"quant": func(x *decimal.Big) (int, error) {
+				if mutating && x != nil {
+					x.Quantize(2)
+					x.Add(x, decimal.New(1, 0))
+				}
+				return 0, nil
+			},
+			"n3": 3, "i64": int64(200), "f25": 2.5,
 			"variadic": func(xs ...interface{}) (int, error) {
 				if mutating && len(xs) > 0 {
 					xs[0] = "scrambled"
@@ -513,7 +522,9 @@ func hostMutCheck(w *core.W, id string, c *HostMutCase) {
 
 var hostMutFormulas = []string{"scramble(xs), xs", "[scramble(xs), xs, scramble(xs), xs]", "$a = [3, 1, 2], scramble($a), $a", "$a = xs, scramble($a), [$a, xs]", "prune(mm), mm", "prune(this), [xs, mm]",
 	"$m = mm, prune($m), [$m, mm]", "prune(nest), nest.l", "scramble(nest.l), nest", "scrambles(ss), ss", "scrambles(['q', 'r']), ss", "variadic(xs...), xs", "$a = [1, 2], variadic($a...), $a", "variadic(1, 2), xs",
-	"scramble([xs, xs]), xs", "$a = [5, 6], $b = $a, scramble($b), [$a, $b]", "scramble(xs) + scramble(xs), xs"}
+	"scramble([xs, xs]), xs", "$a = [5, 6], $b = $a, scramble($b), [$a, $b]", "scramble(xs) + scramble(xs), xs",
+	"quant(n3), [n3, n3 + 0, 3, len('abc')]", "quant(len('abc')), [len('abc'), len('xyz'), n3]", "quant(i64), [i64, 200]", "quant(f25), f25", "quant(1 + 2), [1 + 2, 3]", "quant(3), [3, 3.0]",
+	"quant(year(date(2020, 1, 1))), year(date(2020, 1, 1))", "quant(find('abc', 'c')), find('xbc', 'c')", "quant(n3), quant(n3), n3"}
 
 var forbiddenTargets = []string{"a", "a.b", "m.b", "$a.b", "($a)", "1", "f()", "this", "true", "null", "[$a]", "$a + 1", "'$a'", "this.$a", "-$a", "!$a", "typeof $a", "m!.b", "(a)", "($a ? $b : $c)", "a + $a", "$a()", "this.a", "ctx",
 	"a$", "a$b", "_$x", "price$", "new$name", "x$$", "_$", "a$.b"}
